@@ -415,6 +415,9 @@ var nonceRe = regexp.MustCompile(`nonce-[0-9a-f]+`)
 
 // stackBigFailover: a large upload with a declared length; the preferred endpoint consumes part of it and resets the
 // connection before answering; the next endpoint must still receive the whole body, byte for byte.
+// bigJSON: the next big failover uploads are JSON documents (the body inspector peeks into those)
+var bigJSON bool
+
 func stackBigFailover(c *vlib.Cases, r *vlib.Rng, engine string, size int, chunked bool) {
 	a, b := stack.NewBackend("A"), stack.NewBackend("B")
 	defer a.Close()
@@ -431,9 +434,9 @@ func stackBigFailover(c *vlib.Cases, r *vlib.Rng, engine string, size int, chunk
 		return
 	}
 	defer s.Stop()
-	_, body := mkBody(r, 0, size, false)
+	_, body := mkBody(r, 0, size, bigJSON)
 	q := "big=1"
-	raw := stack.Request("POST", "/olla/proxy/v1/embeddings?"+q, s.Addr, [][2]string{{"Content-Type", "application/octet-stream"}}, body, chunked)
+	raw := stack.Request("POST", "/olla/proxy/v1/embeddings?"+q, s.Addr, [][2]string{{"Content-Type", map[bool]string{false: "application/octet-stream", true: "application/json"}[bigJSON]}}, body, chunked)
 	rp := stack.Do(s.Addr, raw, 60*time.Second)
 	type sent struct {
 		Method  string `json:"method"`
@@ -649,6 +652,13 @@ func main() {
 			c.Count("stack.bigfailover")
 		}
 		stackBigFailover(c, r, engine, 3<<20, true)
+		// JSON documents above the inspector's 1 MiB window, declared and chunked: the replay after the failed upload is the
+		// whole document again
+		bigJSON = true
+		stackBigFailover(c, r, engine, 1<<20+4096, true)
+		stackBigFailover(c, r, engine, 3<<20, true)
+		stackBigFailover(c, r, engine, 2<<20, false)
+		bigJSON = false
 	}
 	// translated (Anthropic -> OpenAI) requests under concurrency
 	xb := 6
